@@ -262,6 +262,86 @@ func (k *ksGen) gate(w string, right bool) {
 	}
 }
 
+// ksLevel: the keystore-level entry point KeystoreManager.SignHash leaves the address manager UNLOCKED;
+// while it is, every passphrase check compares the salted hash instead of deriving: wrong candidates must
+// still be refused, the right one accepted, by every secret-needing operation; then lock again.
+func (k *ksGen) ksLevel(w string) {
+	var usable []string
+	for _, a := range k.addrs[w] {
+		if k.addrIdx[a] < k.nExt[w] {
+			usable = append(usable, a)
+		}
+	}
+	if len(usable) == 0 {
+		return
+	}
+	pickA := func() string { return usable[k.r.Intn(len(usable))] }
+	if k.r.Intn(4) == 0 {
+		p, _ := wrongOf(k.r, k.pass[w], k.otherPasses(w))
+		k.op("kssign-wrong-locked", "kssign %s %s %s", w, pickA(), hexp(p))
+	}
+	k.op("kssign-right", "kssign %s %s %s", w, pickA(), hexp(k.pass[w]))
+	k.op("q-kstate", "kstate")
+	n := 1 + k.r.Intn(5)
+	for i := 0; i < n; i++ {
+		right := k.r.Intn(2) == 0
+		p := k.pass[w]
+		kind := "right"
+		if !right {
+			p, _ = wrongOf(k.r, k.pass[w], k.otherPasses(w))
+			kind = "wrong"
+		}
+		switch k.r.Intn(6) {
+		case 0:
+			k.op("unlocked-kssign-"+kind, "kssign %s %s %s", w, pickA(), hexp(p))
+		case 1:
+			k.nK++
+			kn := fmt.Sprintf("K%d", k.nK)
+			k.op("unlocked-export-"+kind, "kexport %s %s %s", w, hexp(p), kn)
+			if right {
+				k.exports = append(k.exports, ksExport{kn, w, k.pass[w]})
+			}
+		case 2:
+			k.op("unlocked-mnemonic-"+kind, "kmnemonic %s %s", w, hexp(p))
+		case 3:
+			k.op("unlocked-decrypt-"+kind, "kdecrypt %s %s", w, hexp(p))
+			if !right {
+				k.op("unlocked-remove-wrong", "kremove %s %s", w, hexp(p))
+			}
+		case 4:
+			k.op("unlocked-chpriv", "kchpriv %s %s %s", w, hexp(p), hexp(freshPass(k.r)))
+		default:
+			k.op("unlocked-chpub", "kchpub %s %s", hexp(k.pub), hexp(k.pub+"x")) // same-prefix new public passphrase
+			if validPassGo(k.pub+"x") && k.pub+"x" != k.pass[w] {
+				ok := true
+				for _, o := range k.presentWallets() {
+					if k.pass[o] == k.pub+"x" {
+						ok = false
+					}
+				}
+				if ok {
+					k.pub = k.pub + "x"
+				}
+			}
+		}
+		if k.r.Intn(3) == 0 {
+			k.op("q-kstate", "kstate")
+		}
+	}
+	switch k.r.Intn(3) {
+	case 0:
+		k.op("ksclear", "ksclear")
+	case 1:
+		// a wallet-level signing call locks every keystore again, even when it is refused
+		p, _ := wrongOf(k.r, k.pass[w], k.otherPasses(w))
+		k.op("signhash-wrong", "ksignhash %s %s %s", w, pickA(), hexp(p))
+	default:
+		k.op("signhash-right", "ksignhash %s %s %s", w, pickA(), hexp(k.pass[w]))
+	}
+	k.op("q-klocked", "klocked")
+	k.lastOK = ""
+}
+
 func (k *ksGen) observe(full bool) {
 	k.op("q-klocked", "klocked")
 	if full {
@@ -426,6 +506,8 @@ func genSecKeys(g *Gen) {
 				if k.lastOK == w && g.Rng.Intn(2) == 0 {
 					k.gate(w, false) // a wrong attempt right after a successful one
 				}
+			case c < 26:
+				k.ksLevel(ws[g.Rng.Intn(len(ws))])
 			case c < 28:
 				k.restart()
 			case c < 31:
@@ -594,6 +676,7 @@ func (s *signGen) scenario() {
 		cs := pickN(all, 1+s.r.Intn(4))
 		// withdrawals are rarer than standard coins: take one on board when there is one
 		if s.r.Intn(3) == 0 {
+		wanted:
 			for _, want := range []string{"bind", "stk", "bind22"} {
 				for _, c := range all {
 					if c.cls == want {
@@ -606,7 +689,7 @@ func (s *signGen) scenario() {
 						if !dup {
 							cs[len(cs)-1] = c
 						}
-						break
+						break wanted
 					}
 				}
 			}
@@ -705,7 +788,12 @@ func (s *signGen) scenario() {
 		}
 	case k < 18 && len(conf) > 0: // index beyond the outputs of a known transaction
 		c := conf[s.r.Intn(len(conf))]
-		t := s.defineSignTx([]string{fmt.Sprintf("%s:%d", c.tx, 7+s.r.Intn(90))}, 1, c.amt)
+		idx := 7 + s.r.Intn(90)
+		if d, ok := l.defined[c.tx]; ok && s.r.Intn(2) == 0 {
+			idx = len(d.outs) // the first index that does not exist
+			s.g.Stats["sign-bad-index-first-missing"]++
+		}
+		t := s.defineSignTx([]string{fmt.Sprintf("%s:%d", c.tx, idx)}, 1, c.amt)
 		s.attempts(w, t, "bad-index", secAllFlags)
 	default: // gate operations of the keystore interleaved with signing
 		p := s.passFor(w, s.r.Intn(2) == 0)
@@ -807,7 +895,7 @@ func genSecAuto(g *Gen) {
 }
 
 func genSecSign(g *Gen) {
-	nHist := g.Scale(45, 1200)
+	nHist := g.Scale(140, 1500)
 	for h := 0; h < nHist; h++ {
 		if h%9 == 0 {
 			genSecAuto(g)
